@@ -14,8 +14,8 @@ package c01arith
 import (
 	"fmt"
 	"math/rand"
+	"runtime/debug"
 
-	"github.com/openkruise/rollouts/api/v1beta1"
 	"k8s.io/apimachinery/pkg/util/intstr"
 	"k8s.io/utils/pointer"
 	"sigs.k8s.io/controller-runtime/pkg/client"
@@ -43,11 +43,13 @@ func init() {
 	core.Register(&core.Check{
 		ID:    "C01A",
 		Level: "exploration",
-		Rule: "one case = (control, replicas); controls = the 7 batch-release controls (the StatefulSet control twice: native ordered and Advanced-StatefulSet unordered); " +
-			"inside a case every step in {0..R+2} U {0%..100%} is evaluated from the state the real Initialize leaves (fresh) and from 5 states produced by really running " +
-			"a previous batch (lower / equal / beyond, same and cross int-percent type) and settling the workload at that level; plan length 1-3 and the position of the " +
-			"current batch cycle deterministically; for the controls that read no-need-update pods 3 NoNeedUpdateReplicas values x 2 start states are added (rollback-in-batches). " +
-			"quick: R=120, the whole domain is enumerated (exhaustive); thorough: replicas 0..1000, all percents, all int steps for replicas<=120 and boundary + sampled int steps above. " +
+		Rule: "one case = (control, replicas); controls = the 7 batch-release controls (the StatefulSet control twice: native ordered and Advanced-StatefulSet unordered). " +
+			"Inside a case every step in {0..R+2} U {0%..100%} is judged from the state the control's real Initialize leaves (fresh); in the same world two follow-up batches are then run and judged, " +
+			"each in a relation to its predecessor (higher / equal / lower, same or other int-percent form) that rotates with (replicas + step index + seed), the workload being settled at the knob's level in between; " +
+			"plan length 1-4 and the position of the judged batch rotate too (including a plan that grows by edits). For the controls that read no-need-update pods a second world per step runs the step and one follow-up " +
+			"in a rollback-in-batches state (NoNeedUpdateReplicas in {1, ceil(r/3), r-1}, rotating). " +
+			"quick: R=120 - the fresh-state domain control x replicas 0..120 x step is enumerated completely (8 x 121 x 224 = 216,832 calls; exhaustive), follow-ups and rollback states are the rotating sample on top; " +
+			"thorough: replicas 0..1000, all percents, all int steps for replicas<=120 and boundary + 150 sampled int steps above. " +
 			"non-trivial = the real UpgradeBatch ran on replicas>0; distinct = (control, replicas bucket, int/percent, raise/no-op/lower-attempt, rollback).",
 		Assumptions: []string{
 			"C01 bound is asserted on calls that RAISE exposure: exposure(after) - planned(step, replicas) < replicas/100 for percent steps, <= 0 for int steps (the documented percent->integer slack)",
@@ -59,10 +61,12 @@ func init() {
 			"C07e environment: after UpgradeBatch the workload controller does exactly what the knob asks: updated = exposure(after), all ready (rollback states: plus the no-need-update pods not covered by it; ordered StatefulSet: those are the lowest ordinals); " +
 				"then the real EnsureBatchPodsReadyAndLabeled (real CalculateBatchContext + IsBatchReady) must return nil",
 			"rollout-id empty and failureThreshold nil (batch labels are C12's subject); StatefulSet/DaemonSet pods are synthesised by the interposer (updated+ready ones only)",
-			"per (control, replicas, step) only the first failing start state is reported per oracle, so that one defect maps to one fingerprint",
+			"within one world only the first failing call is reported per oracle prefix (c01 / c07e); a C07e failure of a follow-up call is classified by a fresh-state probe of the same step: target-short (fails from fresh too) vs stale-knob-kept (the control kept an earlier, insufficient knob); C07e fingerprints carry the input class int / pct-le100 / pct-gt100",
 		},
-		NumCases:   NumCases,
-		ChunkSize:  2,
+		NumCases:  NumCases,
+		ChunkSize: 2,
+		// the fake client allocates a JSON round trip per Get; a laxer GC setting buys ~20% throughput for ~300 MB per worker
+		Setup:      func(env *core.Env) error { debug.SetGCPercent(400); return nil },
 		Relevant:   "writes_checked",
 		RunCase:    RunCase,
 		Exhaustive: func(env *core.Env) bool { return !env.Thorough() },
@@ -100,7 +104,7 @@ func stepsFor(env *core.Env, r int, rng *rand.Rand) []step {
 		for _, n := range []int{0, 1, 2, 3, r/100 - 1, r / 100, r/100 + 1, r / 2, r - r/100 - 1, r - r/100, r - r/100 + 1, r - 3, r - 2, r - 1, r, r + 1, r + 2, R + 2} {
 			add(n)
 		}
-		for i := 0; i < 40; i++ {
+		for i := 0; i < 150; i++ {
 			add(rng.Intn(r + 3))
 		}
 	}
@@ -110,19 +114,20 @@ func stepsFor(env *core.Env, r int, rng *rand.Rand) []step {
 	return out
 }
 
-type startKind int
+// relation of a judged step to the batch that was run before it in the same world
+type relation int
 
 const (
-	skFresh startKind = iota
-	skPrevLowerSame
-	skPrevEqual
-	skPrevBeyondSame
-	skPrevLowerCross
-	skPrevBeyondCross
-	numStartKinds
+	relFresh       relation = iota // no previous batch: the state real Initialize left
+	relHigherSame                  // normal progression, same int/percent type
+	relEqual                       // the same step again
+	relLowerSame                   // the knob is already beyond the step (plan edit / non-monotone plan): lowering attempt
+	relHigherCross                 // normal progression, int after percent or percent after int
+	relLowerCross                  // lowering attempt across types
+	numRelations
 )
 
-var startKindNames = [numStartKinds]string{"fresh", "prev-lower-same-type", "prev-equal", "prev-beyond-same-type", "prev-lower-cross-type", "prev-beyond-cross-type"}
+var relationNames = [numRelations]string{"fresh", "after-lower-same-type", "after-equal", "after-higher-same-type", "after-lower-cross-type", "after-higher-cross-type"}
 
 func max(a, b int) int {
 	if a > b {
@@ -137,53 +142,66 @@ func min(a, b int) int {
 	return b
 }
 
-// prevStep derives the previous batch for a start kind.
-func prevStep(k startKind, s step, r, R int) step {
+// nextStep derives the step that follows s in the wanted relation; v varies the distance deterministically.
+func nextStep(rel relation, s step, r, R, v int) step {
 	P := planned(s, r)
+	far := v%2 == 1
 	if isPct(s) {
 		p, _ := parsePct(s.StrVal)
-		switch k {
-		case skPrevLowerSame:
-			return pct(p / 2)
-		case skPrevEqual:
-			return s
-		case skPrevBeyondSame:
-			return pct(min(100, p+13))
-		case skPrevLowerCross:
-			return intstr.FromInt(P / 2)
-		case skPrevBeyondCross:
-			return intstr.FromInt(min(r, P+max(1, r/4)))
+		switch rel {
+		case relHigherSame:
+			if far {
+				return pct(min(100, p+1+(v*7)%60))
+			}
+			return pct(min(100, p+1))
+		case relLowerSame:
+			if far {
+				return pct(p / 2)
+			}
+			return pct(max(0, p-1))
+		case relHigherCross:
+			if far {
+				return intstr.FromInt(min(R+2, P+1+(v*5)%(r/2+2)))
+			}
+			return intstr.FromInt(min(R+2, P+1))
+		case relLowerCross:
+			if far {
+				return intstr.FromInt(P / 2)
+			}
+			return intstr.FromInt(max(0, P-1))
 		}
-	} else {
-		n := int(s.IntVal)
-		switch k {
-		case skPrevLowerSame:
+		return s
+	}
+	n := int(s.IntVal)
+	switch rel {
+	case relHigherSame:
+		if far {
+			return intstr.FromInt(min(R+2, n+1+(v*5)%(r/2+2)))
+		}
+		return intstr.FromInt(min(R+2, n+1))
+	case relLowerSame:
+		if far {
 			return intstr.FromInt(n / 2)
-		case skPrevEqual:
-			return s
-		case skPrevBeyondSame:
-			return intstr.FromInt(min(R+2, n+max(1, r/4)))
-		case skPrevLowerCross:
-			if r == 0 {
-				return pct(0)
-			}
-			return pct(P * 100 / r / 2)
-		case skPrevBeyondCross:
-			if r == 0 {
-				return pct(100)
-			}
-			return pct(min(100, ceilDiv(P*100, r)+7))
 		}
+		return intstr.FromInt(max(0, n-1))
+	case relHigherCross:
+		if r == 0 {
+			return pct(100)
+		}
+		if far {
+			return pct(min(100, ceilDiv(P*100, r)+1+(v*7)%60))
+		}
+		return pct(min(100, P*100/r+1))
+	case relLowerCross:
+		if r == 0 {
+			return pct(0)
+		}
+		if far {
+			return pct(P * 100 / r / 2)
+		}
+		return pct(max(0, ceilDiv(P*100, r)-1))
 	}
 	return s
-}
-
-func lowerOf(s step) step {
-	if isPct(s) {
-		p, _ := parsePct(s.StrVal)
-		return pct(p / 2)
-	}
-	return intstr.FromInt(int(s.IntVal) / 2)
 }
 
 func trailing(s step, R int) step {
@@ -191,29 +209,6 @@ func trailing(s step, R int) step {
 		return pct(100)
 	}
 	return intstr.FromInt(R + 2)
-}
-
-// buildPlan: plan and index of the judged batch. pad cycles the plan length / position.
-func buildPlan(k startKind, s step, r, R, pad int) ([]step, int) {
-	if k == skFresh {
-		switch pad {
-		case 0:
-			return []step{s}, 0
-		case 1:
-			return []step{s, trailing(s, R)}, 0
-		default:
-			return []step{s, trailing(s, R), trailing(s, R)}, 0
-		}
-	}
-	prev := prevStep(k, s, r, R)
-	switch pad {
-	case 0:
-		return []step{prev, s}, 1
-	case 1:
-		return []step{prev, s, trailing(s, R)}, 1
-	default:
-		return []step{lowerOf(prev), prev, s}, 2
-	}
 }
 
 func bucket(r int) string {
@@ -237,16 +232,13 @@ func bucket(r int) string {
 // ---- one evaluation ------------------------------------------------------------------------------
 
 type evalInput struct {
-	Target    string   `json:"control"`
-	Replicas  int      `json:"replicas"`
-	Plan      []string `json:"plan"`
-	Current   int      `json:"currentBatch"`
-	StartKind string   `json:"startState"`
-	NoNeed    *int32   `json:"noNeedUpdateReplicas,omitempty"`
-}
-
-type evalOutcome struct {
-	c01Failed, c07Failed bool
+	Target   string   `json:"control"`
+	Replicas int      `json:"replicas"`
+	Plan     []string `json:"plan"`
+	Current  int      `json:"currentBatch"`
+	Start    string   `json:"startState"`
+	History  []string `json:"batchesAlreadyRun,omitempty"`
+	NoNeed   *int32   `json:"noNeedUpdateReplicas,omitempty"`
 }
 
 func planStrings(p []step) []string {
@@ -257,49 +249,56 @@ func planStrings(p []step) []string {
 	return out
 }
 
-// evaluate runs the judged UpgradeBatch for (target, replicas, plan[cur]) from the given start kind.
-// report01 / report07: whether a failure of that oracle may be reported (false once an earlier start state already failed it).
-func evaluate(res *core.CaseResult, t, r int, objs []client.Object, plan []step, cur int, k startKind, nn *int32, report01, report07 bool) (out evalOutcome) {
+// chain is one world in which consecutive batches are run through the real control, each call judged.
+type chain struct {
+	res      *core.CaseResult
+	w        *world
+	t, r     int
+	nn       *int32
+	c01Seen  bool // an earlier call of this chain already failed a C01 oracle (report one defect once)
+	c07Seen  bool
+	history  []string
+	prevStep *step
+	knobStep *step // the step whose call last wrote the knob (the knob in place has its int/percent form)
+	dead     bool
+	objs     []client.Object
+	probe    bool // scratch chain used to classify a failure; counts nothing
+}
+
+func newChain(res *core.CaseResult, t, r int, objs []client.Object, nn *int32) *chain {
+	c := &chain{res: res, w: newWorld(t, r, objs), t: t, r: r, nn: nn, objs: objs}
+	// start state: status at the level the knob asks; rollback states start with the no-need-update pods already updated
+	st0, err := c.w.read()
+	if err == nil {
+		err = c.w.settle(c.w.updatedCount(st0.Exposure, nn))
+	}
+	if err != nil {
+		res.Inconclusive = "start state: " + err.Error()
+		c.dead = true
+	}
+	return c
+}
+
+// judge runs the real UpgradeBatch for plan[cur] in the chain's current state and applies the oracles.
+func (c *chain) judge(plan []step, cur int, rel relation) {
+	if c.dead {
+		return
+	}
+	res, w, t, r, nn := c.res, c.w, c.t, c.r, c.nn
 	tn := targetNames[t]
 	s := plan[cur]
-	in := evalInput{Target: tn, Replicas: r, Plan: planStrings(plan), Current: cur, StartKind: startKindNames[k], NoNeed: nn}
-	w := newWorld(t, r, objs)
+	in := evalInput{Target: tn, Replicas: r, Plan: planStrings(plan), Current: cur, Start: relationNames[rel], History: append([]string(nil), c.history...), NoNeed: nn}
+	knobOf := c.knobStep
+	c.history = append(c.history, s.String())
+	sc := s
+	c.prevStep = &sc
 	res.Count("evaluations", 1)
 	res.Count("evaluations."+tn, 1)
-
-	// start state: status at the level the knob asks; rollback states start with the no-need-update pods already updated
-	st0, err := w.read()
-	if err != nil {
-		res.Inconclusive = "read start state: " + err.Error()
-		return
-	}
-	if err := w.settle(w.updatedCount(st0.Exposure, nn)); err != nil {
-		res.Inconclusive = "settle start state: " + err.Error()
-		return
-	}
-	// predecessor batches through the real control (not judged here: each is judged as a step of its own)
-	for b := 0; b < cur; b++ {
-		br := mkRelease(t, plan, b, nn)
-		var uerr error
-		pi := core.Try(func() { uerr = mkPlane(t, w.cli, br).UpgradeBatch() })
-		if pi != nil || uerr != nil {
-			res.Count("setup_failed", 1)
-			return
-		}
-		stb, err := w.read()
-		if err != nil {
-			res.Count("setup_failed", 1)
-			return
-		}
-		if err := w.settle(w.updatedCount(stb.Exposure, nn)); err != nil {
-			res.Count("setup_failed", 1)
-			return
-		}
-	}
 
 	before, err := w.read()
 	if err != nil {
 		res.Inconclusive = "read before: " + err.Error()
+		c.dead = true
 		return
 	}
 	br := mkRelease(t, plan, cur, nn)
@@ -314,25 +313,30 @@ func evaluate(res *core.CaseResult, t, r int, objs []client.Object, plan []step,
 		return d
 	}
 	if pi != nil {
-		out.c01Failed = true
-		if report01 {
-			res.Violate("c01:panic:"+tn+":"+pi.Site+":"+core.NormPanic(pi.Value), fmt.Sprintf("%s UpgradeBatch panicked on replicas=%d step=%s: %s", tn, r, s.String(), pi.Value),
+		if !c.c01Seen {
+			res.Violate("c01:panic:"+tn+":"+pi.Site+":"+core.NormPanic(pi.Value), fmt.Sprintf("%s UpgradeBatch panicked on replicas=%d plan=%v batch=%d: %s", tn, r, in.Plan, cur, pi.Value),
 				detail(gen.NF{"stack": pi.Stack}))
 		}
+		c.c01Seen, c.dead = true, true
 		return
 	}
 	if uerr != nil {
 		res.Count("upgrade_errors", 1)
 		res.Count("upgrade_errors."+tn, 1)
 		if res.Inconclusive == "" {
-			res.Inconclusive = fmt.Sprintf("%s UpgradeBatch returned an error on replicas=%d step=%s start=%s: %v", tn, r, s.String(), startKindNames[k], uerr)
+			res.Inconclusive = fmt.Sprintf("%s UpgradeBatch returned an error on replicas=%d plan=%v batch=%d start=%s: %v", tn, r, in.Plan, cur, in.Start, uerr)
 		}
+		c.dead = true
 		return
 	}
 	after, err := w.read()
 	if err != nil {
 		res.Inconclusive = "read after: " + err.Error()
+		c.dead = true
 		return
+	}
+	if len(w.cli.writes) > 0 {
+		c.knobStep = &sc
 	}
 	P := planned(s, r)
 	rollback := nn != nil
@@ -368,48 +372,50 @@ func evaluate(res *core.CaseResult, t, r int, objs []client.Object, plan []step,
 
 	// (b) monotone
 	if after.Exposure < before.Exposure {
-		out.c01Failed = true
-		if report01 {
-			rel := "same-type"
-			if cur > 0 && isPct(plan[cur-1]) != isPct(s) {
-				rel = "cross-type"
+		if !c.c01Seen {
+			// cross-type: the knob in place was written for a step of the other int/percent form
+			relType := "same-type"
+			if knobOf != nil && isPct(*knobOf) != isPct(s) {
+				relType = "cross-type"
 			}
-			fp := "c01:monotone:" + tn + ":" + rel
+			fp := "c01:monotone:" + tn + ":" + relType
 			if rollback {
 				fp += ":rollback"
 			}
-			res.Violate(fp, fmt.Sprintf("%s UpgradeBatch moved the knob back: exposure %d -> %d (replicas=%d plan=%v batch=%d start=%s)", tn, before.Exposure, after.Exposure, r, in.Plan, cur, in.StartKind),
+			res.Violate(fp, fmt.Sprintf("%s UpgradeBatch moved the knob back: exposure %d -> %d (replicas=%d plan=%v batch=%d, batches already run %v)", tn, before.Exposure, after.Exposure, r, in.Plan, cur, in.History),
 				detail(gen.NF{"knob_after": after, "planned": P}))
 		}
+		c.c01Seen = true
 	}
 	// (a) bound on raises (not in rollback-in-batches states)
 	if !rollback && after.Exposure > before.Exposure {
 		over := after.Exposure - P
 		bad := over > 0
 		if isPct(s) {
-			bad = over*100 >= r && over > 0 // over < r/100 allowed
+			bad = over > 0 && over*100 >= r // an excess below replicas/100 is the documented slack
 		}
 		if bad {
-			out.c01Failed = true
-			if report01 {
-				res.Violate("c01:bound:"+tn+":"+typ, fmt.Sprintf("%s UpgradeBatch exposes %d pods, step %s of %d replicas plans %d (excess %d, allowed slack < %d/100)", tn, after.Exposure, s.String(), r, P, over, r),
+			if !c.c01Seen {
+				res.Violate("c01:bound:"+tn+":"+typ, fmt.Sprintf("%s UpgradeBatch exposes %d pods, step %s of %d replicas plans %d (excess %d; allowed: < %d/100 for percent, 0 for int)", tn, after.Exposure, s.String(), r, P, over, r),
 					detail(gen.NF{"knob_after": after, "planned": P}))
 			}
+			c.c01Seen = true
 		}
 	}
 
 	// (c) C07e sufficiency
 	if err := w.settle(w.updatedCount(after.Exposure, nn)); err != nil {
 		res.Inconclusive = "settle after: " + err.Error()
+		c.dead = true
 		return
 	}
 	var rerr error
 	pi = core.Try(func() { rerr = mkPlane(t, w.cli, br).EnsureBatchPodsReadyAndLabeled() })
 	if pi != nil {
-		out.c07Failed = true
-		if report07 {
+		if !c.c07Seen {
 			res.Violate("c07e:panic:"+tn+":"+pi.Site+":"+core.NormPanic(pi.Value), fmt.Sprintf("%s EnsureBatchPodsReadyAndLabeled panicked: %s", tn, pi.Value), detail(gen.NF{"stack": pi.Stack}))
 		}
+		c.c07Seen, c.dead = true, true
 		return
 	}
 	if r > 0 {
@@ -417,11 +423,18 @@ func evaluate(res *core.CaseResult, t, r int, objs []client.Object, plan []step,
 		res.Count("sufficiency_checked."+tn, 1)
 	}
 	if rerr != nil {
-		out.c07Failed = true
-		if report07 {
-			mech := "write-short"
-			if len(w.cli.writes) == 0 {
-				mech = "noop-short"
+		if !c.c07Seen {
+			// target-short: the target the control computes for this step is insufficient even from the fresh state;
+			// stale-knob-kept: from the fresh state the step gets a sufficient knob, here the control kept an earlier, insufficient one
+			mech := "target-short"
+			if rel != relFresh && !c.probe {
+				tmp := &core.CaseResult{}
+				pc := newChain(tmp, t, r, c.objs, nn)
+				pc.probe = true
+				pc.judge([]step{s}, 0, relFresh)
+				if !pc.c07Seen {
+					mech = "stale-knob-kept"
+				}
 			}
 			var ctxJSON interface{}
 			if bc, cerr := realContext(t, w.cli, br); cerr == nil && bc != nil {
@@ -430,16 +443,24 @@ func evaluate(res *core.CaseResult, t, r int, objs []client.Object, plan []step,
 					mech = "demand-exceeds-replicas"
 				}
 			}
-			fp := "c07e:" + tn + ":" + mech
+			// input class: percent steps convert exactly on <=100 replicas, above that the documented <1% rounding is in play
+			cls := "int"
+			if isPct(s) {
+				cls = "pct-le100"
+				if r > 100 {
+					cls = "pct-gt100"
+				}
+			}
+			fp := "c07e:" + tn + ":" + mech + ":" + cls
 			if rollback {
 				fp += ":rollback"
 			}
-			res.Violate(fp, fmt.Sprintf("%s: the knob UpgradeBatch leaves asks for %d updated pods of %d, the workload delivers exactly that, yet the batch can never become ready: %v (plan=%v batch=%d start=%s)",
-				tn, after.Exposure, r, rerr, in.Plan, cur, in.StartKind),
+			res.Violate(fp, fmt.Sprintf("%s: the knob UpgradeBatch leaves asks for %d updated pods of %d, the workload delivers exactly that, yet the batch can never become ready: %v (plan=%v batch=%d, batches already run %v)",
+				tn, after.Exposure, r, rerr, in.Plan, cur, in.History),
 				detail(gen.NF{"knob_after": after, "planned": P, "workload_reports_updated": w.updatedCount(after.Exposure, nn), "real_batch_context": ctxJSON, "readiness_error": rerr.Error()}))
 		}
+		c.c07Seen = true
 	}
-	return
 }
 
 // noNeedValues: NoNeedUpdateReplicas values for rollback-in-batches states.
@@ -458,7 +479,7 @@ func noNeedValues(r int) []int32 {
 	return out
 }
 
-var initCache = map[[2]int][]client.Object{}
+var chainRelations = [5]relation{relHigherSame, relLowerSame, relHigherCross, relEqual, relLowerCross}
 
 // RunCase runs case idx = replicas*numTargets + control.
 func RunCase(env *core.Env, idx int) *core.CaseResult {
@@ -496,28 +517,46 @@ func RunCase(env *core.Env, idx int) *core.CaseResult {
 	}
 
 	steps := stepsFor(env, r, rng)
+	nns := noNeedValues(r)
 	for si, s := range steps {
-		pad := (r + si) % 3
-		c01Seen, c07Seen := false, false
-		for k := skFresh; k < numStartKinds; k++ {
-			plan, cur := buildPlan(k, s, r, R, pad)
-			o := evaluate(res, t, r, objs, plan, cur, k, nil, !c01Seen, !c07Seen)
-			c01Seen, c07Seen = c01Seen || o.c01Failed, c07Seen || o.c07Failed
+		v := r + si + int(env.Seed%1000)
+		// chain 1: fresh state, then two follow-up batches in rotating relations. The plan the release carries grows with the
+		// chain for pad 2 (a plan edit that appends batches), so that the judged batch is also seen as the last one of a 1- and 2-batch plan.
+		rel2 := chainRelations[v%5]
+		rel3 := chainRelations[(v/5+v+2)%5]
+		s2 := nextStep(rel2, s, r, R, v)
+		s3 := nextStep(rel3, s2, r, R, v/3)
+		full := []step{s, s2, s3}
+		c := newChain(res, t, r, objs, nil)
+		switch v % 3 {
+		case 0:
+			c.judge(full, 0, relFresh)
+			c.judge(full, 1, rel2)
+			c.judge(full, 2, rel3)
+		case 1:
+			withT := append(append([]step(nil), full...), trailing(s3, R))
+			c.judge(withT, 0, relFresh)
+			c.judge(withT, 1, rel2)
+			c.judge(withT, 2, rel3)
+		default:
+			c.judge(full[:1], 0, relFresh)
+			c.judge(full[:2], 1, rel2)
+			c.judge(full, 2, rel3)
 		}
-		if supportsRollback(t) {
-			for _, nn := range noNeedValues(r) {
-				for _, k := range []startKind{skFresh, skPrevBeyondSame} {
-					plan, cur := buildPlan(k, s, r, R, pad)
-					o := evaluate(res, t, r, objs, plan, cur, k, pointer.Int32(nn), !c01Seen, !c07Seen)
-					c01Seen, c07Seen = c01Seen || o.c01Failed, c07Seen || o.c07Failed
-				}
-			}
+		// chain 2 (controls that read no-need-update pods): rollback-in-batches state, the step and one lowering attempt
+		if supportsRollback(t) && len(nns) > 0 {
+			nn := nns[v%len(nns)]
+			relb := []relation{relLowerSame, relHigherSame, relLowerCross}[(v/3)%3]
+			sb := nextStep(relb, s, r, R, v)
+			cb := newChain(res, t, r, objs, pointer.Int32(nn))
+			cb.c01Seen, cb.c07Seen = c.c01Seen, c.c07Seen
+			plan := []step{s, sb}
+			cb.judge(plan, 0, relFresh)
+			cb.judge(plan, 1, relb)
 		}
 	}
 	if idx < 8 {
-		res.Sample = gen.NF{"control": tn, "replicas": r, "steps": len(steps), "start_states": startKindNames, "no_need_update_values": noNeedValues(r)}
+		res.Sample = gen.NF{"control": tn, "replicas": r, "steps": len(steps), "relations": relationNames, "no_need_update_values": nns}
 	}
 	return res
 }
-
-var _ = v1beta1.PartitionRollingStyle
